@@ -619,6 +619,15 @@ from ..selftest import fire, silent      # noqa: E402
 
 RN = 'xdoctest/runner.py'
 US = 'xdoctest/utils/util_str.py'
+_SECTIONS_OBJECT = (
+    (RN, "'\\n'.join(docstr_lines + header_lines + body_lines)", "sec.joined(docstr_lines)", 2),
+    (RN, "        body_lines = []\n", "        sec = _Sections()\n"),
+    (RN, "        header_lines = []\n", ""),
+    ('re', RN, r"(?<![.\w])(header_lines|body_lines)\b", r"sec.\1"),
+)
+_SECTIONS_CLASS = ("class _Sections:\n    def __init__(self):\n        self.header_lines = []\n        self.body_lines = []\n\n    def joined(self, first):\n"
+                   "        return '\\n'.join(%s)\n\n\ndef _convert_to_test_module(enabled_examples):\n")
+
 VARIANTS = [
     fire('filtered-lines-stored-inside-the-filter-loop', 'C19.R4', (RN, "                    new_exec_lines.append(line)\n                part.exec_lines = new_exec_lines\n", "                    new_exec_lines.append(line)\n                    part.exec_lines = new_exec_lines\n")),
     fire('module-path-dots-kept-in-the-name', 'C19.R2b', (RN, "example.modname.replace('.', '_') + '_'", "example.modname + '_'")),
@@ -642,6 +651,9 @@ VARIANTS = [
     fire('want-never-joined', 'C19.R5', (RN, "                body_part += '\\n' + want_text\n", "                pass\n")),
     fire('indent-first-line-only', 'C19.R6', (US, "    return prefix + text.replace('\\n', '\\n' + prefix)\n", "    return prefix + text\n")),
     fire('index-suffix-only-when-nonzero', 'C19.R2', ('re', RN, r"(func_name = 'test_' \+ example\.modname\.replace\('\.', '_'\) \+ '_' \+ example\.callname\.replace\('\.', '_'\))[^\n]*\n", r"\1\n        if example.num > 0:\n            func_name += '_' + str(example.num)\n")),
+    silent('sections-in-a-small-object', *_SECTIONS_OBJECT, (RN, "def _convert_to_test_module(enabled_examples):\n", _SECTIONS_CLASS % 'first + self.header_lines + self.body_lines'),
+           note='the loader dissolves a new local value object into the variables it stands for'),
+    fire('sections-object-joins-in-the-wrong-order', 'C19.R3', *_SECTIONS_OBJECT, (RN, "def _convert_to_test_module(enabled_examples):\n", _SECTIONS_CLASS % 'first + self.body_lines + self.header_lines')),
     silent('indent-as-join', (US, "    return prefix + text.replace('\\n', '\\n' + prefix)\n", "    return '\\n'.join(prefix + line for line in text.split('\\n'))\n")),
     silent('name-via-unique-callname', ('re', RN, r"func_name = 'test_' \+ example\.modname\.replace\('\.', '_'\) \+ '_' \+ example\.callname\.replace\('\.', '_'\)[^\n]*\n", "func_name = 'test_' + example.modname.replace('.', '_') + '_' + example.unique_callname.replace('.', '_').replace(':', '_')\n")),
 ]
